@@ -35,7 +35,7 @@ TAG_FIXED = True   # fix 38e2441 committed in /repo
 # Flip to True together with fix candidate C02-2/3 (/verif/.cache/prompts/C02-2-fix.diff: write_all copies
 # `size` bytes): the model is then evaluated as footprint_sz (driver fields hiS/classS; Coq:
 # C02_sizecopy_except_known) and NO guard may change for any write kind.
-COPY_FIXED = os.environ.get("VERIF_C02_COPY_FIXED", "0") == "1"   # default False; env only for trying the candidate
+COPY_FIXED = os.environ.get("VERIF_C02_COPY_FIXED", "1") == "1"   # repo fix 7d3c1b1 committed
 TW = "S" if COPY_FIXED else ("1" if TAG_FIXED else "8")
 
 
